@@ -27,15 +27,17 @@ import random
 PROPERTY = "C12"
 LEVEL = "exploration"
 RULE = (
-    "case = one shipped config directory (every flow RailsConfig.from_path returns for it, imports resolved), one shipped .co "
-    "file outside any config directory (loaded through a one-file config directory), or one generated program (v2: "
-    "main + generated sub flows, nesting <=3 quick / <=4 thorough of if/elif/else, while, when/or when/else, "
-    "break/continue, and/or groups on match/await/start/when, activate/deactivate, actions, labels, return/abort; "
-    "v1: if/else if/else, while, break/continue, when/else when branches, label/goto, do subflow, return/stop); "
-    "non-trivial = the compiled case contains >=1 jump/fork/scope/loop-exit element and the scan ran on every flow; "
-    "distinct = sha1(program text) / path"
+    "case = one shipped config directory under nemoguardrails/, examples/, tests/, docs/ (every flow RailsConfig.from_path "
+    "returns for it, imports resolved), one shipped .co file outside any config directory (loaded through a one-file config "
+    "directory with the real loader), one directed template program with a scripted history, or one generated program (v2: "
+    "main + generated sub flows, nesting <=3 quick / <=4 thorough of if/elif/else-if/else, while, when/or when/else, "
+    "break/continue, and/or groups on match/await/start/when, activate/deactivate, actions, labels, return/abort, executed "
+    "over 5-10 random events; v1: if/else if/else, while, break/continue/pass, when/else when branches, label/goto, "
+    "do subflow, return/stop, every flow driven through the real slide()); "
+    "non-trivial = the compiled case contains >=1 jump/fork/merge/catch/scope/loop-exit element and the scan ran on every "
+    "flow of the case; distinct = sha1(program text) / path"
 )
-MIN_HELD = {"quick": 1500, "thorough": 15000}
+MIN_HELD = {"quick": 3000, "thorough": 40000}
 MAX_INCONCLUSIVE = 0.10
 EXHAUSTIVE = {"quick": False, "thorough": False}
 ASSUMPTIONS = [
@@ -51,7 +53,11 @@ ASSUMPTIONS = [
     "v1: the negative absolute jump -1 is the finish encoding of `return`; any other target must be in [0, len]",
     "break/continue target must be the exit/head of the innermost enclosing while (v2: by the _while_begin_/_while_end_ "
     "label pair around the element; v1: target of _next_on_continue is a `while`, element before the _next_on_break "
-    "target is the jump back to that `while`)",
+    "target is the jump back to that `while`); v2 exception counted as observation v2_loop_exit_into_duplicated_copy: "
+    "the body of a `when` case is emitted once per and-group and the second copy re-uses the Break/Continue objects "
+    "already labelled for the first copy - the target exists, is in the same flow and is the same code",
+    "a run-time `Unknown variable _ref_...` / return_value evaluation error of the interpreter is not a jump target and "
+    "is only counted (observed.dynamic_other_warnings)",
     "shipped directories that need absent third-party modules / network / an unresolvable import are skipped and the "
     "reason is counted (observed.shipped_skip_*); finalize() requires >=85% of the shipped inputs to load",
     "dynamic part: the known C07 defect (`when` over a group with >1 and-groups) is generated on purpose (its expansion "
@@ -63,7 +69,7 @@ CASE_WALL_S = 120
 HARD_INCONCLUSIVE = ("hook-missing", "monitor-not-reached")
 
 SHIPPED_ROOTS = ("nemoguardrails", "examples", "tests", "docs")
-GEN_COUNTS = {"quick": (5200, 2600), "thorough": (60000, 30000)}  # (v2 programs, v1 programs)
+GEN_COUNTS = {"quick": (4000, 2000), "thorough": (40000, 20000)}  # (v2 programs, v1 programs)
 
 KNOWN_WHEN_ELSE = "when-else-leaves-scope-open"
 KNOWN_WHEN_OR_DYNAMIC = "when-case-with-or-group-dynamic"
@@ -805,12 +811,14 @@ def _init_v2(flows, rails_config=None):
 
 
 def _judge_v2_state(st, evals, obs):
-    """Direct scan over every flow config + cross-check with what the contract saw."""
+    """Direct scan over every flow config + cross-check with what the contract saw.
+    Returns (violations, flows, jumpish elements, flows the contract did not judge identically)."""
     A = _W["A"]
     violations = []
     flows = 0
     jumpish = 0
     dup_flows = 0
+    unseen = 0
     for fid, cfg in st.flow_configs.items():
         V, S = scan_v2_flow(A, cfg)
         flows += 1
@@ -819,16 +827,16 @@ def _judge_v2_state(st, evals, obs):
             dup_flows += 1
         _merge(obs, S, "v2_")
         seen = _W["contract_results"].get(id(cfg))
-        if seen is None:
-            violations.append(("contract-not-evaluated-for-flow", fid, "initialize_flow never saw this flow config"))
-        elif sorted(m for m, _ in seen[1]) != sorted(m for m, _ in V):
-            violations.append(("contract-and-scan-disagree", fid, "%r vs %r" % (seen[1][:2], V[:2])))
+        if seen is None or sorted(m for m, _ in seen[1]) != sorted(m for m, _ in V):
+            unseen += 1
         for m, d in V:
             violations.append((m, fid, d))
     obs["v2_flows_scanned"] = obs.get("v2_flows_scanned", 0) + flows
     obs["v2_flows_with_duplicate_label_names"] = obs.get("v2_flows_with_duplicate_label_names", 0) + dup_flows
     obs["contract_evaluations"] = obs.get("contract_evaluations", 0) + evals
-    return violations, flows, jumpish
+    if unseen:
+        obs["v2_flows_not_judged_by_contract"] = obs.get("v2_flows_not_judged_by_contract", 0) + unseen
+    return violations, flows, jumpish, unseen
 
 
 def _judge_v1_flows(flows, obs):
@@ -924,9 +932,9 @@ def _run_shipped(case):
                             nontrivial=False, detail=str(e)[:300])
             if not used:
                 obs["v2_configs_without_main"] = 1
-            violations, flows, jumpish = _judge_v2_state(st, evals, obs)
+            violations, flows, jumpish, unseen = _judge_v2_state(st, evals, obs)
             obs["shipped_v2_configs"] = 1
-            reached = flows > 0 and evals > 0
+            reached = flows > 0 and evals > 0 and not unseen
             if flows == 0:
                 obs["shipped_without_flows"] = 1
                 return dict(base, verdict="inconclusive", reason="expected:no-flows", observed=obs, nontrivial=False)
@@ -998,7 +1006,7 @@ def _run_gen2(case):
         obs["gen2_loader_reject_init"] = 1
         return dict(base, verdict="inconclusive", reason="loader-reject", detail="init %s: %s" % (type(e).__name__, str(e)[:300]),
                     observed=obs, nontrivial=False)
-    violations, nflows, jumpish = _judge_v2_state(st, evals, obs)
+    violations, nflows, jumpish, unseen = _judge_v2_state(st, evals, obs)
     for k in ("when", "when_else", "when_multi", "while", "if", "brk", "groups", "scoped_await"):
         obs["gen2_stmt_" + k] = g.facts[k]
     # ---- dynamic confirmation
@@ -1055,7 +1063,7 @@ def _run_gen2(case):
         obs["dynamic_other_warnings"] = len(other)
         obs["dynamic_other_warning_kinds"] = sorted(set((r[2] or r[1][:40]) for r in other))[:5]
     base["sample"]["events"] = [h["type"] for h in history]
-    return _finish(base, violations, obs, nflows > 0 and evals > 0, jumpish > 0,
+    return _finish(base, violations, obs, nflows > 0 and evals > 0 and not unseen, jumpish > 0,
                    {"program": src, "events": history, "facts": g.facts})
 
 
@@ -1167,7 +1175,7 @@ def finalize(tier, seed, observed, counts):
         "shipped_inputs_loaded": loaded,
     }
     out = {"coverage": cov}
-    if total and loaded < 0.85 * total:
+    if total and sum(counts.values()) >= total and loaded < 0.85 * total:
         out["inconclusive"] = "only %d of %d shipped inputs loaded" % (loaded, total)
     if observed.get("v2_flows_scanned", 0) and not observed.get("contract_evaluations", 0):
         out["inconclusive"] = "monitor-not-reached: the initialize_flow contract was never evaluated"
